@@ -180,11 +180,12 @@ End Et.
                 live.Run(); return live.Err() }                          PRunLive / PInHLive
             fileSrc := tryGetSource(file); if nil { return error }       PGetFile  -> point 12 (joining.file_obtained)
             register(fileSrc)                                            PRegFile  -> point 13 (joining.file_registered)
-            fileSrc.Run()                                                PRunFile / PInHFile / PJoinRet
+            fileSrc.Run()                                                PRunFile / PInHFile / PInJoinF / PJoinRet
             if liveSource == nil { return fileSrc.Err() }                          -> point 14 (joining.joined)
             register(live)                                               PRegLive  -> point 15 (joining.joined_registered)
             live.Run(); return live.Err()
-     fileSourceHandler: when the live factory gives a source: liveSource = src     -> point 16 (joining.handler_live_obtained)
+     fileSourceHandler: the live-factory call of the join is a state of its own (PInJoinF: a Shutdown may complete
+                        inside it); when the factory gives a source: liveSource = src     -> point 16 (joining.handler_live_obtained)
                         return stopSourceOnJoin (the file source shuts itself down); else user handler
      Run(): s.Shutdown(run())                                            PShut / PSdBusy
    Unfixed code: register(x) = OnTerminating(x.Shutdown) whatever the state of the shutter.
@@ -194,7 +195,7 @@ Module Jn.
   Inductive fev := FBlock (b : nat) (ok : bool) | FJoin (b : nat) | FFail.
   Inductive pc :=
   | PStart | PRegLive (joined : bool) | PRunLive | PInHLive (b : nat) (ok : bool)
-  | PGetFile | PRegFile | PRunFile | PInHFile (b : nat) (ok : bool) | PJoinRet
+  | PGetFile | PRegFile | PRunFile | PInHFile (b : nat) (ok : bool) | PInJoinF | PJoinRet
   | PShut | PSdBusy | PRet.
   Inductive xstate := XIdle | XBusy | XDone.
   Inductive tid := TRun | TX.
@@ -281,12 +282,13 @@ Module Jn.
         else match fscript s with
              | [] => s
              | FBlock b ok :: r => set_hbegun (emit (set_pcr (set_fscript s r) (PInHFile b ok)) (EHBegin 0 b)) (S (hbegun s))
-             | FJoin b :: r => emit (emit (set_pcr (set_have_live (set_fscript s r) true) PJoinRet) (EFactory 1 0)) (EPoint 16)
+             | FJoin b :: r => set_pcr (set_fscript s r) PInJoinF     (* inside the live-factory call of the join *)
              | FFail :: r => shut_file (set_fscript s r)
              end
     | PInHFile b ok =>
         let s1 := emit (set_pcr s PRunFile) (EHEnd 0 b ok) in
         if ok then s1 else shut_file s1
+    | PInJoinF => emit (emit (set_pcr (set_have_live s true) PJoinRet) (EFactory 1 0)) (EPoint 16)
     | PJoinRet => shut_file (set_pcr s PRunFile)          (* stopSourceOnJoin: the file source shuts itself down *)
     | PShut =>
         match sdst s with
